@@ -121,10 +121,11 @@ func runC17Sio(c *sim.Ctx, t *testing.T) {
 			nres := 0
 			for {
 				sim.Yield("h#consume")
-				select {
-				case <-ctx.Done():
+				r, ok := sim.RecvOrDone("h#consume-select", ctx.Done(), (<-chan *Result)(cp.out))
+				if !ok {
 					return
-				case r := <-cp.out:
+				}
+				{
 					nres++
 					lg.Add(sim.Ev{Kind: "recv", N: int64(nres)}) // the loop parks right after its send
 					sim.Yield("h#consumed")                      // the sender woke too: let the scheduler order us
@@ -160,13 +161,11 @@ func runC17Sio(c *sim.Ctx, t *testing.T) {
 					}
 					m := vfJSONCopy(msg)
 					sim.Yield("h#send")
-					select {
-					case <-ctx.Done():
-						return
-					case cp.in <- func(*Crew) interface{} {
+					if !sim.SendOrDone("h#send-select", ctx.Done(), (chan<- interface{})(cp.in), interface{}(func(*Crew) interface{} {
 						lg.Add(sim.Ev{Kind: "proc", Err: rid})
 						return m
-					}:
+					})) {
+						return
 					}
 					sim.Yield("h#sent") // the receiver woke too: let the scheduler order us
 
